@@ -20,3 +20,21 @@ void h_JareckiLysyanskayaRVSS(void) { JareckiLysyanskayaRVSS *self; _Bool r = Ja
   __CPROVER_assert(!r, "REACHABILITY-CANARY (must fail): an accepted parameter set exists"); }
 void h_HooghSchoenmakersSkoricVillegasVRHE(void) { HooghSchoenmakersSkoricVillegasVRHE *self; _Bool r = HooghSchoenmakersSkoricVillegasVRHE__CheckGroup(self);
   __CPROVER_assert(!r, "REACHABILITY-CANARY (must fail): an accepted parameter set exists"); }
+void he_PedersenVSS(void) { PedersenVSS *self; mpz_srcptr a; _Bool r = PedersenVSS__CheckElement(self, a);
+  __CPROVER_assert(!r, "REACHABILITY-CANARY (must fail): an accepted element exists"); }
+void he_GennaroJareckiKrawczykRabinDKG(void) { GennaroJareckiKrawczykRabinDKG *self; mpz_srcptr a; _Bool r = GennaroJareckiKrawczykRabinDKG__CheckElement(self, a);
+  __CPROVER_assert(!r, "REACHABILITY-CANARY (must fail): an accepted element exists"); }
+void he_CanettiGennaroJareckiKrawczykRabinRVSS(void) { CanettiGennaroJareckiKrawczykRabinRVSS *self; mpz_srcptr a; _Bool r = CanettiGennaroJareckiKrawczykRabinRVSS__CheckElement(self, a);
+  __CPROVER_assert(!r, "REACHABILITY-CANARY (must fail): an accepted element exists"); }
+void he_CanettiGennaroJareckiKrawczykRabinZVSS(void) { CanettiGennaroJareckiKrawczykRabinZVSS *self; mpz_srcptr a; _Bool r = CanettiGennaroJareckiKrawczykRabinZVSS__CheckElement(self, a);
+  __CPROVER_assert(!r, "REACHABILITY-CANARY (must fail): an accepted element exists"); }
+void he_CanettiGennaroJareckiKrawczykRabinDKG(void) { CanettiGennaroJareckiKrawczykRabinDKG *self; mpz_srcptr a; _Bool r = CanettiGennaroJareckiKrawczykRabinDKG__CheckElement(self, a);
+  __CPROVER_assert(!r, "REACHABILITY-CANARY (must fail): an accepted element exists"); }
+void he_CanettiGennaroJareckiKrawczykRabinDSS(void) { CanettiGennaroJareckiKrawczykRabinDSS *self; mpz_srcptr a; _Bool r = CanettiGennaroJareckiKrawczykRabinDSS__CheckElement(self, a);
+  __CPROVER_assert(!r, "REACHABILITY-CANARY (must fail): an accepted element exists"); }
+void he_NaorPinkasEOTP(void) { NaorPinkasEOTP *self; mpz_srcptr a; _Bool r = NaorPinkasEOTP__CheckElement(self, a);
+  __CPROVER_assert(!r, "REACHABILITY-CANARY (must fail): an accepted element exists"); }
+void he_JareckiLysyanskayaRVSS(void) { JareckiLysyanskayaRVSS *self; mpz_srcptr a; _Bool r = JareckiLysyanskayaRVSS__CheckElement(self, a);
+  __CPROVER_assert(!r, "REACHABILITY-CANARY (must fail): an accepted element exists"); }
+void he_HooghSchoenmakersSkoricVillegasVRHE(void) { HooghSchoenmakersSkoricVillegasVRHE *self; mpz_srcptr a; _Bool r = HooghSchoenmakersSkoricVillegasVRHE__CheckElement(self, a);
+  __CPROVER_assert(!r, "REACHABILITY-CANARY (must fail): an accepted element exists"); }
